@@ -54,6 +54,9 @@ def case_strategy(tier):
             sizes = {n: R(1, 2) for n in vs + pls}
         present = sorted({n for f in factors for n in f})
         elim = [n for n in present if R(0, 9) < 8] if R(0, 3) else list(present)
+        if R(0, 9) == 0:
+            # only plates (or nothing) are eliminated; other declared plates stay as inputs
+            elim = [n for n in present if n in pls and R(0, 1)]
         if R(0, 1):
             scales = {}
         else:
